@@ -396,6 +396,7 @@ STR_RULES = [
     ("$I.starts_with($C)", "str_starts_with(&$I, $C)"),
     ("$I[1..].to_string()", "str_skip1(&$I)"),
     ("$I.split($C).map(|x| x.to_string()).collect::<Vec<_>>()", "str_split(&$I, $C)"),
+    ("$I.split($C).map(String::from).collect()", "str_split(&$I, $C)"),
 ]
 
 
